@@ -287,7 +287,11 @@ def apply_measure(interp, m, args):
         else:
             key = (m.name, _param_key(params))
             if key not in xs.base_measures:
-                xs.base_measures[key] = m.shape.make(interp, '%s(%s#%d)' % (m.name, xs.uid, xs.version))
+                v = m.shape.make(interp, '%s(%s#%d)' % (m.name, xs.uid, xs.version))
+                xs.base_measures[key] = v
+                # the fold of the empty list is `init`
+                e = interp.truth(interp.eq(v, m.init))
+                interp.st.assume(wrap(z3.Implies(xs.base_len == 0, to_z3(e))))
             acc = xs.base_measures[key]
         for x in xs.tail:
             acc = interp.call(m.step, [acc, x] + params, {})
